@@ -1448,6 +1448,27 @@ pub fn run_c17(ctx: &mut Ctx) {
         let which = if fam == "long-search" { 0 } else { rng.weighted(&[10, 2, 4, 1]) };
         if fam == "long-search" {
             ctx.count("cases/long-search-shapes");
+            if rng.pct(20) {
+                // every argument, certificate-less skeptical queries of the enumerating procedures: every
+                // call position of every search of the framework gets its failure
+                ctx.count("cases/long-search-shapes-with-every-argument-queried");
+                for a in 0..case.abs.n {
+                    for prob in ["DS-PR", "DS-ID"] {
+                        let enc = *rng.pick(&["aux_var-co", "exp-co", "hybrid"]);
+                        let focus = json!({"problem": prob, "encoder": enc, "query": {"args": [a], "cert": false}});
+                        crate::report::guarded(ctx, |ctx| {
+                            if case.pres.is_usize() {
+                                if let Ok(b) = build_usize(&case.pres) {
+                                    c17_static(ctx, &case, &b, &mut rng, Some(&focus));
+                                }
+                            } else if let Ok(b) = build_string(&case.pres) {
+                                c17_static(ctx, &case, &b, &mut rng, Some(&focus));
+                            }
+                        });
+                    }
+                }
+                continue;
+            }
         }
         crate::report::guarded(ctx, |ctx| match which {
             0 | 1 => {
